@@ -200,7 +200,7 @@ class HSym(HBase):
         vals = []
         for name, s in self.ctx.inputs:
             vals.append((name, self.ctx.value(s, model)))
-        self.candidates.append(Candidate(label, detail, vals, list(self.choice_seq)))
+        self.candidates.append(Candidate(label, None if detail is None else str(detail)[:400], vals, list(self.choice_seq)))
 
     def check(self, cond, label, detail=None):
         if isinstance(cond, SymBool):
@@ -229,7 +229,8 @@ class HSym(HBase):
         conds = []
         ok = self._eq_conds(a, b, conds)
         if not ok:
-            self.check(False, label, detail or "shape/kind mismatch")
+            self.check(False, label, "%s [%s]" % (detail, getattr(self, '_mismatch', 'shape/kind mismatch')))
+            self._mismatch = 'shape/kind mismatch'
             return
         if not conds:
             self.checks.append((label, 'unsat'))
@@ -263,6 +264,7 @@ class HSym(HBase):
         if core._is_special(la) or core._is_special(lb):
             if core._is_special(la) and core._is_special(lb):
                 return (math.isnan(la) and math.isnan(lb)) or la == lb
+            self._mismatch = "non-finite %r vs finite value" % (la if core._is_special(la) else lb)
             return False
         if la.c is not None and lb.c is not None:
             return _tol_eq(la.c, lb.c)
@@ -326,7 +328,7 @@ class HConc(HBase):
         ok = bool(cond)
         self.checks.append((label, 'unsat' if ok else 'sat'))
         if not ok:
-            self.failures.append((label, detail))
+            self.failures.append((label, None if detail is None else str(detail)[:400]))
 
     def fail(self, label, detail=None):
         self.check(False, label, detail)
